@@ -132,8 +132,11 @@ class InitMethod(MethodDescriptor):
                     _inplace=True,
                 )
 
-            if instance_metadata.post_init:
-                instance_metadata.post_init(self)
+            # Looked up on the instance (as dataclasses do), so that plain
+            # subclasses can add or override the hook.
+            post_init = getattr(self, "__post_init__", None)
+            if post_init:
+                post_init()
 
             self.__delattr__(
                 "__spec_class_initializing__", force=True, skip_invalidation=True
